@@ -1,12 +1,17 @@
 package props
 
 import (
+	"bytes"
 	"flag"
 	"math"
 	"strconv"
 	"testing"
 
+	"github.com/Tnze/go-mc/chat"
+	"github.com/Tnze/go-mc/nbt"
 	"pgregory.net/rapid"
+
+	"verif/harness/pbt"
 )
 
 func mathFloat32bits(f float32) uint32 { return math.Float32bits(f) }
@@ -16,4 +21,59 @@ func mathFloat64bits(f float64) uint64 { return math.Float64bits(f) }
 func rapidCheckN(t *testing.T, n int, f func(*rapid.T)) {
 	_ = flag.Set("rapid.checks", strconv.Itoa(n))
 	rapid.Check(t, f)
+}
+
+// ---- unrelated traffic -------------------------------------------------------------------------------
+//
+// noiseNBT / noiseChat / noisePackets push unrelated work - accepted inputs first, refused ones last -
+// through the package-level pools and caches of the code under test. The checks call them before the
+// operation under test (so that an error path that leaves a pool dirty meets the operation; doing it
+// inside the check keeps replays self-contained) and between the operation and the comparison of its
+// result (so that a result which aliases pooled or cached memory is overwritten before it is looked at).
+
+type noiseT struct {
+	X []int8   `nbt:"x"`
+	Y string   `nbt:"y"`
+	Z []int64  `nbt:"z"`
+	W []string `nbt:"w"`
+}
+
+var noiseVal = noiseT{X: []int8{7, 8, 9}, Y: "noise-noise-noise", Z: []int64{1, 2, 3, 4}, W: []string{"n", "o"}}
+
+func noiseNBT() {
+	_, _ = pbt.Try(func() {
+		b, _ := nbt.Marshal(noiseVal)
+		var v any
+		_ = nbt.Unmarshal(b, &v)
+		var sm nbt.StringifiedMessage
+		_ = nbt.Unmarshal(b, &sm)
+		var rm nbt.RawMessage
+		_ = nbt.Unmarshal(b, &rm)
+		_ = rm.String()
+		var back noiseT
+		_ = nbt.Unmarshal(b, &back)
+		for _, text := range []string{`{x:[B;7b,8b,9b],y:"noise",z:[L;1L,2L],w:[[1,2],[3]]}`, `[1b,2b,3s]`, `{a:[I;1,2,x]}`, `{k:[a,b,1]}`, `[[1,2],[3,}`, `{a:"unterminated`} {
+			var buf bytes.Buffer
+			_ = nbt.NewEncoder(&buf).Encode(nbt.StringifiedMessage(text), "")
+		}
+		_, _ = nbt.Marshal(map[string]any{"ok": int32(1), "bad": make(chan int)})
+	})
+}
+
+func noiseChat() {
+	_, _ = pbt.Try(func() {
+		ok := chat.Message{Text: "noise", Bold: true, Extra: []chat.Message{{Text: "more", Color: "red"}}}
+		b, _ := nbt.Marshal(ok)
+		var back chat.Message
+		_ = nbt.Unmarshal(b, &back)
+		j, _ := ok.MarshalJSON()
+		_ = back.UnmarshalJSON(j)
+		_ = ok.String()
+		_ = ok.ClearString()
+		// refused encode: translation arguments mixing strings and components
+		bad := chat.Message{Translate: "chat.type.text", With: []any{"plain", chat.Message{Text: "component"}}}
+		_, _ = nbt.Marshal(bad)
+		_, _ = bad.MarshalJSON()
+		_ = back.UnmarshalJSON([]byte(`{"text":"x","extra":[{"text":1`))
+	})
 }
